@@ -119,4 +119,11 @@ pub enum Rec {
     Made(LKey, Created),
     /// harness marker: history step index about to run, current revision counter
     Step(usize, u32),
+    /// coop engine markers: a top-level call of thread `tid` begins / ends (call index)
+    CallBegin(u32, u32),
+    CallEnd(u32, u32),
+    /// coop engine: `token.cancel()` of thread `tid` was delivered by the scheduler
+    CancelDelivered(u32),
+    /// coop engine: a `WillCheckCancellation` event on thread `tid`
+    CheckCancel(u32),
 }
